@@ -380,6 +380,15 @@ def model_env_class(s):
     return None, (str(s), None)
 
 
+def model_tree(s):
+    """(kind ty (children)) from the model -> the node shape pair_up expects ({"k","c"} + canonical type "t")"""
+    if not isinstance(s, list):
+        return {"k": "skipped", "c": [], "t": None}
+    t = s[1]
+    return {"k": str(s[0]), "t": None if (isinstance(t, str) and str(t) == "none") else canon_ty(t),
+            "c": [model_tree(x) for x in s[2]]}
+
+
 def correspondence(rep, driver, cases, tcds, stats, first_cmds):
     """cases[i] typechecked by Rust in mode tcds[i][mode]; one model command per (policy, mode, request env)"""
     mcmds, meta = [], []
@@ -414,6 +423,19 @@ def correspondence(rep, driver, cases, tcds, stats, first_cmds):
             stats["corr_bad_literal"] += 1
             continue
         rcls = rust_env_class(e)
+        # the annotated tree: the type of every sub-expression the typechecker visits
+        if rcls == mcls and rcls[0] != "fail" and e["typed"] is not None and len(mr) > 3:
+            pairs = []
+            if pair_up(e["typed"], model_tree(mr[3]), pairs):
+                for typed, node in pairs:
+                    if typed["t"] is None or node["t"] is None:
+                        continue
+                    stats["corr_nodes"] += 1
+                    if canon_ty(texpr.ty_sx(typed["t"])) != node["t"]:
+                        mcls = (mcls[0], ("sub-expression %s" % node["k"], node["t"], canon_ty(texpr.ty_sx(typed["t"]))))
+                        break
+            else:
+                mcls = (mcls[0], "annotated trees have different short-circuit shapes")
         stats["corr_compared"] += 1
         stats["corr_classes"][mode + "/" + rcls[0]] = stats["corr_classes"].get(mode + "/" + rcls[0], 0) + 1
         if rcls != mcls:
@@ -424,7 +446,7 @@ def correspondence(rep, driver, cases, tcds, stats, first_cmds):
                                "rust_entry_point": "Typechecker::typecheck_by_request_env",
                                "mode": mode, "schema": c.sg.js, "policy": c.text, "env": e["env"],
                                "rust": {"result": e["result"], "errors": e["errors"], "root_type": (e["typed"] or {}).get("t")},
-                               "model": repr(mr), "model_cmd": sx_dump(mc),
+                               "model": repr(mr)[:3000], "difference": repr(mcls), "model_cmd": sx_dump(mc),
                                "theorem_transfer_lost": "c03_sound_partial / c03_impossible / c03_strict_in_permissive for this policy"},
                               no_failing_input=True)
 
@@ -454,7 +476,7 @@ def run_batch(rep, harness, cases, stats, samples, driver=None, first_cmds=None)
 def new_stats():
     return {"policies": 0, "strict_accepted": 0, "impossible": 0, "evaluations": 0, "data_rejected": 0, "verdicts": {},
             "error_kinds": {}, "outcomes": {}, "traces_paired": 0, "traces_unpaired": 0, "env_unmatched": 0,
-            "subexpr_checked": 0, "corr_compared": 0, "corr_mismatch": 0, "corr_unmodelled": 0, "corr_bad_literal": 0,
+            "subexpr_checked": 0, "corr_compared": 0, "corr_nodes": 0, "corr_mismatch": 0, "corr_unmodelled": 0, "corr_bad_literal": 0,
             "corr_classes": {}}
 
 
@@ -503,7 +525,8 @@ def run(rep, tier, seed):
         "traces_paired_with_typed_expr": stats["traces_paired"], "traces_not_paired": stats["traces_unpaired"],
         "request_env_not_matched": stats["env_unmatched"],
         "construct_histogram": feats,
-        "correspondence_envs_compared": stats["corr_compared"], "correspondence_mismatches": stats["corr_mismatch"],
+        "correspondence_envs_compared": stats["corr_compared"],
+        "correspondence_subexpression_types_compared": stats["corr_nodes"], "correspondence_mismatches": stats["corr_mismatch"],
         "correspondence_filtered_unmodelled": stats["corr_unmodelled"],
         "correspondence_filtered_undeclared_literal": stats["corr_bad_literal"],
         "correspondence_result_classes": stats["corr_classes"], "vm_compute_crosscheck_cases": nx,
